@@ -587,12 +587,13 @@ Fixpoint run_txns (c : cfg) (z : zone) (l : list obs) : list obs :=
   | o :: r => let '(z', out) := run_txn_obs c z o in out :: run_txns c z' r
   end.
 
-(* case = [relativize; origin; transactions] or [relativize; origin; transactions; t] where t is
+(* case = [relativize; origin; transactions], [...; t] or [...; t; rdclass] (rdclass = the zone's class
+   IN/CH/HS: nothing in the model depends on it, so the implementation must not either) where t is
    the branching parameter of the B-trees the implementation is run with (the model does not
    depend on it: the observable behaviour must not either) *)
 Definition run (case : obs) : obs :=
   match case with
-  | L [I rel; L origin; L txns] | L [I rel; L origin; L txns; I _] =>
+  | L [I rel; L origin; L txns] | L [I rel; L origin; L txns; I _] | L [I rel; L origin; L txns; I _; I _] =>
       match name_of_obs origin with
       | Some o => L (run_txns (mkCfg (rel =? 1) o) zone0 txns)
       | None => E eBadCase
